@@ -4557,6 +4557,66 @@ grid("standardize", "g_named_axes", _g_named_axes,
                                "cross", "colors", "tcrdist", "merge")]), rand=True, io=True)
 
 
+# the caller edits the ELEMENTS of what it was handed back (a colour triple, a row, a nested list), not just the container
+def _g_own_elements(H, what):
+    def poke(x):
+        for e in (x if isinstance(x, (list, tuple)) else []):
+            if isinstance(e, list) and e:
+                e[0] = 0.625
+            elif isinstance(e, np.ndarray) and e.size and e.flags.writeable:
+                e.flat[0] = 0
+            elif isinstance(e, dict):
+                e["poked"] = 1
+        return None
+
+    if what == "hls_rare":
+        return poke(pp.labels_to_colors_hls(H["many_labels"] + ["solo1", "solo2"], min_count=2))
+    if what == "tab_rare":
+        return poke(pp.labels_to_colors_tableau(list(H["nodes_list"]) + ["solo1", "solo2"], min_count=2))
+    if what == "hls_all":
+        return poke(pp.labels_to_colors_hls(H["many_labels"]))
+    if what == "tab_all":
+        return poke(pp.labels_to_colors_tableau(H["nodes_list"]))
+    if what == "hclust":
+        return poke(list(prs.hierarchical_clustering(H["seqs_eqlen"])))
+    if what == "background":
+        back, bins = prs.load_pcDelta_background()
+        back.iloc[0, 0] = -1.0
+        bins[0] = -5
+        return None
+    if what == "regex":
+        r = prs.seqs_to_regex(H["seqs_eqlen"])
+        return None if isinstance(r, str) else poke(r)
+    if what == "subsample":
+        return poke(list(prs.subsample(H["counts_arr"], 9)))
+    if what == "db_attrs":
+        db = prs.SymdelDB(H["seqs_list_b"], 1)
+        for v in list(db.variant_dict.values())[:3]:
+            if isinstance(v, list):
+                v.append(99)
+        return None
+    lk = prs.LookupDB(H["seqs_list_b"])
+    for v in list(lk.seq_dict.values())[:3]:
+        if isinstance(v, list):
+            v.append(99)
+    return None
+
+
+grid("colors", "g_own_elements", _g_own_elements,
+     dict(what=[(x, x) for x in ("hls_rare", "tab_rare", "hls_all", "tab_all", "hclust", "background", "regex", "subsample", "db_attrs", "lookup_attrs")]),
+     rand=True, io=True)
+
+
+# the victims: rare labels (below min_count) next to frequent ones, for both colour mappers and through similarity_clustermap
+def _g_rare_labels(H, fn, extra):
+    labels = list(H["nodes_list"]) + ["solo%d" % i for i in range(extra)]
+    return getattr(pp, fn)(labels, min_count=2)
+
+
+grid("colors", "g_rare_labels", _g_rare_labels,
+     dict(fn=[("hls", "labels_to_colors_hls"), ("tab", "labels_to_colors_tableau")], extra=[("1", 1), ("3", 3)]), rand=True)
+
+
 # =============================================================================================
 # random-argument templates: the ARGUMENTS come from a seeded generator A (one fixed value per 'base~<n>' name), drawn from
 # small spaces on purpose, so that two templates of one base often share part of what a careless cache key would look at - the
